@@ -8,6 +8,7 @@ mod c05;
 mod c08;
 mod c09;
 mod c13;
+mod c15;
 mod c17;
 mod json;
 mod rng;
@@ -75,6 +76,7 @@ fn main() {
                 "C05" => c05::search(seed, full, &rt),
                 "C09" => c09::search(seed, full, &rt),
                 "C13" => c13::search(seed, full, &rt),
+                "C15" => c15::search(seed, full, &rt),
                 _ => SearchResult { evaluations: 0, failures: vec![], summary: format!("no executable search registered for {pid}") },
             };
             emit_search(r);
@@ -94,6 +96,7 @@ fn main() {
                 "c05" => c05::replay(&case[1..], &rt),
                 "c09" => c09::replay(&case[1..], &rt),
                 "c13" => c13::replay(&case[1..], &rt),
+                "c15" => c15::replay(&case[1..], &rt),
                 _ => (false, "unknown case".to_string()),
             };
             println!("{}", J::obj(vec![("fails", J::Bool(fails)), ("detail", J::s(&detail))]).render());
